@@ -432,6 +432,13 @@ func c13E2E(src []rune, want string) *mc.Failure {
 			f = &mc.Failure{Kind: "mismatch", Case: cs(), Expected: fmt.Sprintf("text %q", want), Observed: fmt.Sprintf("%T %v", v, v)}
 			return
 		}
+		// the literal followed by more of the statement on its own line: as the first of two list items
+		lst := append(append([]rune("输出【"), src...), []rune("，1】#1")...)
+		v3, err3 := exec.NewInterpreter("verif").LoadScript(lst).Execute(r.ElementMap{})
+		if s3, ok3 := v3.(*value.String); err3 != nil || !ok3 || s3.GetValue() != want {
+			f = &mc.Failure{Kind: "mismatch", Bucket: "as-list-item", Case: cs(), Expected: fmt.Sprintf("text %q also from 输出【<literal>，1】#1", want), Observed: fmt.Sprintf("%T %v err=%v", v3, v3, err3)}
+			return
+		}
 		// the same loaded script executed again (what a server worker does per request)
 		v2, err := in.Execute(r.ElementMap{})
 		s2, ok := v2.(*value.String)
@@ -548,7 +555,7 @@ func init() {
 		ID:    "C13",
 		Level: "exploration",
 		Rule: "E1 exhaustive: every literal body of length <= L over a 31-symbol critical alphabet (10 quote characters, backtick, CR, LF, letters of the escape names, +, hex digits, x, a CJK char, space) inside each of the 5 opening quotes, real lexer vs reference decoder; every sequence of <= 5 (6 thorough) words of a 23-word alphabet (escape names as units, hex words, quotes, line breaks); every backtick text of <= 5 letters over the 14 letters of the escape names (so every near miss of an escape name, e.g. `TABK`, `CRL`, `U+`); " +
-			"plus round trip text->canonical literal->lexer for every text <= L (3 encoders x 5 quotes) over the alphabet extended by Unicode scalar boundaries and 16 characters without a glyph of their own (variation selectors, zero-width characters, direction marks, soft hyphen, U+FEFF, a combining accent, U+FFFD, other line / space separators); texts <= 2 also evaluated (输出<literal>, as written and spelled `U+hex`). The lexer must leave its input unchanged, and the end-to-end cases (bodies <= 3 symbols in the two double-quote families, word sequences <= 2) execute one loaded script twice with the same value. Enumeration is injective (odometer), so every case is distinct; a case is non-trivial if it contains a backtick, a quote character or a line break (i.e. exercises more than verbatim copying).",
+			"plus round trip text->canonical literal->lexer for every text <= L (3 encoders x 5 quotes) over the alphabet extended by Unicode scalar boundaries and 16 characters without a glyph of their own (variation selectors, zero-width characters, direction marks, soft hyphen, U+FEFF, a combining accent, U+FFFD, other line / space separators); texts <= 2 also evaluated (输出<literal>, as written and spelled `U+hex`). The lexer must leave its input unchanged, and the end-to-end cases (bodies <= 3 symbols in the two double-quote families, word sequences <= 2) execute one loaded script twice with the same value, and evaluate the literal once more as the first of two list items. Enumeration is injective (odometer), so every case is distinct; a case is non-trivial if it contains a backtick, a quote character or a line break (i.e. exercises more than verbatim copying).",
 		Assumptions: []string{
 			"reference decoder written from manual chapters 1 and 6; where three readings of 'other backtick text is kept literally' disagree, only 'no crash and the value is one of the readings' is required",
 			"U+hex outside the Unicode scalar range is not asserted (statement restricts it to valid code points)",
@@ -559,7 +566,7 @@ func init() {
 			if tier == "thorough" {
 				return 25 * time.Minute
 			}
-			return 100 * time.Second
+			return 240 * time.Second
 		},
 		Run:    c13Run,
 		Replay: c13Replay,
